@@ -61,6 +61,7 @@ CONSTANTS
     CallModes,      \* how call arguments are bound: subset of {"pos", "kw", "kwrev", "mix", "def", "defkw"}
     AugOn,          \* operators offered for augmented assignments  x op= e   (just outside the translator's subset)
     PassOn,         \* TRUE: an if-branch may be empty (rendered as `pass`): it falls through without binding anything
+    AnnOn,          \* TRUE: annotated assignments x: float = e, also onto parameters / earlier locals (just outside)
     ChainOn,        \* TRUE: chained assignments x1 = x2 = e, x2 possibly a parameter (just outside the subset)
     LoopOn,         \* TRUE: counting while loops and for loops over a literal range (just outside the subset)
     MaxToks,        \* bound on the total number of expression nodes of a program (small-scope BFS instances)
@@ -148,6 +149,7 @@ Start ==
     /\ \/ /\ IF n + 2 <= MaxStmts THEN TRUE ELSE AnyReturn
           /\ \/ \E x \in Locals : want' = [k |-> "assign", name |-> x, op |-> ""]
              \/ \E x \in Scope, op \in AugOn : want' = [k |-> "aug", name |-> x, op |-> op]
+             \/ AnnOn /\ \E x \in Locals : want' = [k |-> "ann", name |-> x, op |-> ""]
              \/ /\ ChainOn          \* second target: a name that already has a value (parameter / earlier local)
                 /\ \E x \in Locals : \E x2 \in Scope \ {x} : want' = [k |-> "chain", name |-> x, op |-> x2]
           /\ todo' = <<Open("num", MaxDepth)>>
@@ -237,7 +239,7 @@ Parse(ts, pos) ==
 Parsed == Parse(toks, 1).e
 
 Complete == ~done /\ want.k # "none" /\ todo = <<>>
-Useful == want.k \in {"assign", "aug", "chain"} \/ FreeVars(Parsed) # {}          \* no constant tests / constant results
+Useful == want.k \in {"assign", "ann", "aug", "chain"} \/ FreeVars(Parsed) # {}          \* no constant tests / constant results
 
 \* a finished expression that may not be used (constant) is built again
 Retry ==
@@ -252,6 +254,9 @@ Commit ==
     /\ LET e == Parsed IN
        \/ /\ want.k = "assign"
           /\ frames' = SetCur([Cur EXCEPT !.stmts = Append(@, Assign(want.name, e))])
+          /\ assigned' = assigned \cup {want.name}
+       \/ /\ want.k = "ann"
+          /\ frames' = SetCur([Cur EXCEPT !.stmts = Append(@, AnnAssign(want.name, e))])
           /\ assigned' = assigned \cup {want.name}
        \/ /\ want.k = "aug"
           /\ frames' = SetCur([Cur EXCEPT !.stmts = Append(@, Aug(want.op, want.name, e))])
